@@ -76,9 +76,13 @@ impl WalCleaner {
                     {
                         if let Ok(id) = num.parse::<u64>() {
                             if id < keep_from_log_id {
+                                #[cfg(feature = "verif-hooks")]
+                                crate::verif_hooks::point("wc.before_delete", id);
                                 let path = entry.path();
                                 match std::fs::remove_file(&path) {
                                     Ok(_) => {
+                                        #[cfg(feature = "verif-hooks")]
+                                        crate::verif_hooks::point("wc.deleted", id);
                                         info!(
                                             target: "wal_cleaner::cleanup_up_to",
                                             shard_id = self.shard_id,
